@@ -74,4 +74,4 @@ def run(ctx):
                        "sleeps (arrival orders vary); classes: reuse over several rounds with more actors than n, n = all actors "
                        "in a chosen order, random (may end blocked: incomplete last group); MC: 2-3 actors, all interleavings. "
                        "non-trivial = accepted trace in which at least 2 waits returned (MC: complete trace)")
-    synclib.standard_run(ctx, gen_normal, gen_mc, nontrivial, quick=(100, 3), thorough=(3000, 30), keyfn=keyfn)
+    synclib.standard_run(ctx, gen_normal, gen_mc, nontrivial, quick=(100, 3), thorough=(1500, 12), keyfn=keyfn)
